@@ -94,7 +94,7 @@ def gen_uri(rng):
 	scheme = rng.choice([u'http', u'HTTP', u'https', u'Https', u'ftp', u'x-y', u'FOO', u'svn+ssh'])
 	host = rng.choice([u'example.com', u'EXAMPLE.com', u'a', u'A.b.C', u'127.0.0.1', u'h-1.x', u'[v1.FE:DC]', u'[v1.fe:dc]', u'[::1]', u'[2001:DB8::A]', u'[vF.X-y]'])
 	port = rng.choice([u'', u'', u':', u':80', u':443', u':8080', u':21', u':22'])
-	path = u''.join(u'/' + rng.choice(SEGS + [u'c', u'%7Ex', u'%7ex']) for _ in range(rng.randrange(0, 6)))
+	path = u''.join(u'/' + rng.choice(SEGS + [u'c', u'%7Ex', u'%7ex', u'a%2Fb', u'b%2F..', u'%2f', u'..%2f', u'%2E%2e']) for _ in range(rng.randrange(0, 6)))
 	q = rng.choice([u'', u'', u'?a=1', u'?a=1&b=%20', u'?x'])
 	f = rng.choice([u'', u'', u'#f'])
 	ui = rng.choice([u'', u'', u'', u'u@', u'u:p@'])
@@ -277,6 +277,20 @@ def oracle(case):
 		names = ('scheme', 'username', 'password', 'host', 'port', 'path', 'query_string', 'fragment')
 		t0 = u.tuple
 		kw = {k_: v_ for k_, v_ in zip(names, t0) if v_}
+		kwu = dict(kw, scheme=kw['scheme'].upper()) if kw.get('scheme') else None
+		kwn = {k_: v_ for k_, v_ in kw.items() if not (k_ == 'port' and u.port == {u'http': 80, u'https': 443, u'ftp': 21}.get(u.scheme))}      # the default port left out
+		if kwu:
+			try:
+				wu = URI(**{k_: v_ for k_, v_ in kwu.items() if k_ in kwn})
+				if not (wu == u and u == wu and wu == case[1].encode('utf-8')):
+					return {'what': 'URI built from keywords with the scheme in upper case and without the default port: equal to the parsed URI %r / reversed %r / to the text %r (%r)' % (wu == u, u == wu, wu == case[1].encode('utf-8'), wu.tuple), 'uri': case[1], 'finding': None}
+				wu.normalize()
+				once_ = wu.tuple
+				wu.normalize()
+				if wu.tuple != once_ or (u.scheme in (u'http', u'https', u'ftp') and not wu.tuple[4]):
+					return {'what': 'URI built from keywords with the scheme in upper case: normalised %r, again %r (default port explicit?)' % (once_, wu.tuple), 'uri': case[1], 'finding': None}
+			except Exception as e:
+				return {'what': 'URI built from keywords with the scheme in upper case raised %s: %s' % (exc_name(e), e), 'uri': case[1], 'finding': None}
 		for how, mk in (('keywords without the empty components', lambda: URI(**kw)), ('a dictionary without the empty components', lambda: URI(dict(kw))), ('its tuple', lambda: URI(t0))):
 			try:
 				w = mk()
